@@ -1,37 +1,33 @@
+import threading
 from collections.abc import Callable
 from typing import Generic, TypeVar
 
-import attr
-
-from basilisp.lang import atom
 from basilisp.lang.interfaces import IDeref, IPending
 
 T = TypeVar("T")
 
 
-@attr.frozen
-class _DelayState(Generic[T]):
-    f: Callable[[], T]
-    value: T | None
-    computed: bool = False
-
-
-class Delay(IDeref[T], IPending):
-    __slots__ = ("_state",)
+class Delay(IDeref[T], IPending, Generic[T]):
+    __slots__ = ("_computed", "_f", "_lock", "_value")
 
     def __init__(self, f: Callable[[], T]) -> None:
-        self._state = atom.Atom(_DelayState(f=f, value=None, computed=False))
-
-    @staticmethod
-    def __deref(state: _DelayState) -> _DelayState:
-        if state.computed:
-            return state
-        else:
-            return _DelayState(f=state.f, value=state.f(), computed=True)
+        self._f: Callable[[], T] | None = f
+        self._value: T | None = None
+        self._computed = False
+        self._lock = threading.RLock()
 
     def deref(self) -> T | None:
-        return self._state.swap(self.__deref).value
+        # The lock is held while the body runs so that racing threads wait for the
+        # first run to finish rather than running the body themselves. If the body
+        # throws, the Delay stays unrealized and the next deref will run it again.
+        with self._lock:
+            if not self._computed:
+                assert self._f is not None
+                self._value = self._f()
+                self._computed = True
+                self._f = None
+            return self._value
 
     @property
     def is_realized(self) -> bool:
-        return self._state.deref().computed
+        return self._computed
